@@ -137,28 +137,32 @@ m_v64qi IA32(loaddquqi512_mask)(const char *p, m_v64qi src, unsigned long long k
  * VPGATHERDD/VPGATHERDQ: element i = mask[i] ? *(T *)(base + SignExtend(index[i]) * scale) : src[i];
  * masked-off elements are NOT accessed (SDM).  The 32-bit index is SIGNED.  AVX2 forms take the mask
  * as a vector (sign bit of each element), AVX-512 forms as a k register. */
+/* address = base + SignExtend(index) * scale; when scale equals the element size this is plain element
+ * indexing (same address, written so that the analyser sees an array index instead of byte arithmetic) */
+#define G32(base, ix, scale) ((scale) == 4 ? ((const int *)(base))[(long long)(ix)] : *(const int *)((const char *)(base) + (long long)(ix) * (scale)))
+#define G64(base, ix, scale) ((scale) == 8 ? ((const long long *)(base))[(long long)(ix)] : *(const long long *)((const char *)(base) + (long long)(ix) * (scale)))
 typedef int m_v8si __attribute__((__vector_size__(32)));
 typedef long long m_v4di __attribute__((__vector_size__(32)));
 typedef int m_v16si __attribute__((__vector_size__(64)));
 typedef long long m_v8di __attribute__((__vector_size__(64)));
 m_v8si IA32(gathersiv8si)(m_v8si src, const int *base, m_v8si idx, m_v8si mask, int scale) {
   m_v8si r;
-  for (int i = 0; i < 8; i++) r[i] = (mask[i] < 0) ? *(const int *)((const char *)base + (long long)idx[i] * scale) : src[i];
+  for (int i = 0; i < 8; i++) r[i] = (mask[i] < 0) ? G32(base, idx[i], scale) : src[i];
   return r;
 }
 m_v4di IA32(gathersiv4di)(m_v4di src, const long long *base, m_v4si idx, m_v4di mask, int scale) {
   m_v4di r;
-  for (int i = 0; i < 4; i++) r[i] = (mask[i] < 0) ? *(const long long *)((const char *)base + (long long)idx[i] * scale) : src[i];
+  for (int i = 0; i < 4; i++) r[i] = (mask[i] < 0) ? G64(base, idx[i], scale) : src[i];
   return r;
 }
 m_v16si IA32(gathersiv16si)(m_v16si src, const void *base, m_v16si idx, unsigned short k, int scale) {
   m_v16si r;
-  for (int i = 0; i < 16; i++) r[i] = ((k >> i) & 1) ? *(const int *)((const char *)base + (long long)idx[i] * scale) : src[i];
+  for (int i = 0; i < 16; i++) r[i] = ((k >> i) & 1) ? G32(base, idx[i], scale) : src[i];
   return r;
 }
 m_v8di IA32(gathersiv8di)(m_v8di src, const void *base, m_v8si idx, unsigned char k, int scale) {
   m_v8di r;
-  for (int i = 0; i < 8; i++) r[i] = ((k >> i) & 1) ? *(const long long *)((const char *)base + (long long)idx[i] * scale) : src[i];
+  for (int i = 0; i < 8; i++) r[i] = ((k >> i) & 1) ? G64(base, idx[i], scale) : src[i];
   return r;
 }
 /* VMOVDQU32 / VMOVDQU64 with a write mask: masked-off elements are neither read nor written */
